@@ -152,6 +152,7 @@ fn run_trials(a: &Args) -> Report {
         let per = if miri { 4 } else { 1 + r.usize(12) };
         let recover_by_drop = r.chance(1, 3);
         let mode = if miri { 9 } else { t % 3 };
+        let long_wait = mode == 0 && !recover_by_drop && r.chance(1, 100);
         // role 0 = recoverer, roles 1.. = emitters
         let mut rules = Vec::new();
         if mode == 0 {
@@ -160,7 +161,8 @@ fn run_trials(a: &Args) -> Report {
             if recover_by_drop {
                 rules.push(Rule::new(1, "recoverable.after_upgrade", 1, 0, "@done", 1));
             } else {
-                rules.push(Rule::new(1, "recoverable.after_upgrade", 1, 0, "recoverable.into_inner.spin", 1));
+                // now and then the emission outlasts many failed attempts: into_inner must keep waiting, however long
+                rules.push(Rule::new(1, "recoverable.after_upgrade", 1, 0, "recoverable.into_inner.spin", if long_wait { 64 } else { 1 }));
             }
             rules.push(Rule::new(0, "@start", 1, 1, "recoverable.after_upgrade", 1));
         }
@@ -169,7 +171,10 @@ fn run_trials(a: &Args) -> Report {
             1 => Policy::Random { num: 1, den: 2, hold: 2 },
             _ => Policy::Off,
         };
-        let ctx = Ctx::new(policy, !miri);
+        let ctx = if long_wait { Ctx::with_gate_timeout(policy, true, std::time::Duration::from_secs(20)) } else { Ctx::new(policy, !miri) };
+        if long_wait {
+            rep.count("trials:emission-outlasts-64-recovery-attempts", 1);
+        }
         let next_id = Arc::new(AtomicU64::new(1));
         // (emission id, call stamp, return stamp)
         let mut hs = Vec::new();
@@ -182,17 +187,21 @@ fn run_trials(a: &Args) -> Report {
                 let mut r = Rng::new(seed);
                 let mut out = Vec::new();
                 let mut handles = Vec::new();
+                let mut panics: Vec<String> = Vec::new();
                 for _ in 0..per {
                     let id = nid.fetch_add(1, Ordering::SeqCst);
                     CUR_EMISSION.with(|c| c.set(id));
                     let call = o.stamp.fetch_add(1, Ordering::SeqCst);
-                    if let Some(h) = emit(&*w, r.below(12)) {
-                        handles.push((h, call));
+                    let kind = r.below(12);
+                    match rt::catch(std::panic::AssertUnwindSafe(|| emit(&*w, kind))) {
+                        Ok(Some(h)) => handles.push((h, call)),
+                        Ok(None) => {}
+                        Err(m) => panics.push(m),
                     }
                     let ret = o.stamp.fetch_add(1, Ordering::SeqCst);
                     out.push((id, call, ret));
                 }
-                (out, handles)
+                (out, handles, panics)
             }));
         }
         let o2 = obs.clone();
@@ -231,10 +240,12 @@ fn run_trials(a: &Args) -> Report {
         let (rcall, rret, inside_at_return, recover_panic): (u64, u64, usize, Option<String>) = rh.join().unwrap();
         let mut emissions = Vec::new();
         let mut handles = Vec::new();
+        let mut emit_panics: Vec<String> = Vec::new();
         for h in hs {
-            let (o, hh) = h.join().unwrap();
+            let (o, hh, pp) = h.join().unwrap();
             emissions.extend(o);
             handles.extend(hh);
+            emit_panics.extend(pp);
         }
         ctx.abort.store(true, Ordering::SeqCst);
         if ctx.expired.load(Ordering::SeqCst) > 0 {
@@ -259,13 +270,17 @@ fn run_trials(a: &Args) -> Report {
         if mode == 0 && ctx.unsat.load(Ordering::SeqCst) == 0 {
             windows += 1;
         }
-        let desc = jo! {"emitters" => nemit, "emissions_each" => per, "recover_by" => if recover_by_drop {"drop(handle)"} else {"into_inner"}, "linger_steps" => linger, "schedule_mode" => mode};
+        let desc = jo! {"emitters" => nemit, "emissions_each" => per, "recover_by" => if recover_by_drop {"drop(handle)"} else {"into_inner"}, "linger_steps" => linger, "schedule_mode" => mode, "emission_outlasts_64_recovery_attempts" => long_wait};
         rep.case(mix(sig, mix(rcall, rret) ^ emissions.len() as u64), nemit >= 1);
         let log = obs.log.lock().unwrap().clone();
         let reached: std::collections::HashMap<u64, (u64, u64)> = log.iter().map(|(id, en, ex)| (*id, (*en, *ex))).collect();
         let mut fail = |sig: &str, what: &str, extra: J| {
             rep.violation(sig, jo! {"what" => what, "trial" => desc.clone(), "recovery_call" => rcall, "recovery_return" => rret, "detail" => extra});
         };
+        if let Some(m) = emit_panics.first() {
+            fail("C20:emission-panicked", "an emission through the wrapper panicked (it must reach the recorder or be ignored and yield an inert handle)", jo! {"panic" => m.clone(), "emissions_that_panicked" => emit_panics.len()});
+            continue;
+        }
         if let Some(m) = &recover_panic {
             fail("C20:into_inner-panicked", "into_inner panicked instead of waiting and handing the recorder back", J::s(m.clone()));
             continue;
